@@ -197,31 +197,9 @@ def run(R, tier):
         detail = "payload gets %d tokens %s" % (len(pay), [sym.show(t)[:60] for t in toks])
     R.check(ok, "R04.5", "read_arbitrary_data:length", "the payload is chars[0..n] with n = the decimal value of the header's length digits", "definite-length block: payload must be exactly the announced number of bytes (%s)" % detail, where=b.span)
 
-    # ---- R04.6 radix table (shared with C09/R09.8) --------------------------------------------------------------------------------
-    rb = u.body(TK + "read_nondecimal_data")
-    engl = fdai.Engine(P, u, inline=D.inline_inherent(("scpi::parser::tokenizer::",), exclude=(TK + "skip_ws_to_separator",)), models={})
-    reader = {}
-    for letter in b"HhQqBbXx19":
-        res = engl.run(rb, [RefV(Cell(TOP, "tok"), (), True), K(letter)])
-        rad = set()
-        for r in res:
-            pp = [e for e in r.trace if e.kind == "call" and "parse_partial_with_options" in e.name]
-            for e in pp:
-                g = (e.extra or {}).get("gargs") or ()
-                if len(g) > 1 and g[1].isdigit() and g[0] == "u64":
-                    rad.add((int(g[1]) >> 104) & 0xFF)
-            if not pp:
-                rad.add(M.outcome(r))
-        reader[chr(letter)] = rad
-    exp_reader = {"H": {16}, "h": {16}, "Q": {8}, "q": {8}, "B": {2}, "b": {2}}
-    ok = all(reader[k] == v for k, v in exp_reader.items()) and all(reader[k] == {"Err(NumericDataError)"} for k in "Xx19")
-    R.check(ok, "R04.6", "radix-letters", "#H/#h -> 16, #Q/#q -> 8, #B/#b -> 2 (u64), any other letter -> -120", "non-decimal radix table is %s" % reader, where=rb.span)
-    # the token carries the parser's value
-    Sn = sym.Sym(rb.mir)
-    carried = False
-    for bi in rb.mir.live_blocks():
-        for st in rb.mir.blocks[bi]["stmts"]:
-            if st["k"] == "assign" and st["rv"]["k"] == "aggr" and st["rv"].get("variant") == "NonDecimalNumericProgramData":
-                e = sym.norm(Sn.operand(st["rv"]["fields"][0]))
-                carried = "map_err" in repr(e) or "parse_partial" in repr(e) or e[0] in ("field", "var")
-    R.check(carried, "R04.6", "non-decimal:value", "the token carries the value the radix parser returned", "non-decimal token does not carry the parsed value", where=rb.span)
+    # ---- R04.6 radix table and exact values (shared with C09/R09.8): named rows of the element tables -------------------------
+    # (Earlier this rule read the radix from the generic arguments of a lexical-core call; the reader now scans and
+    # accumulates the digits itself - fix F15/F16 - and is decided by value like the other elements.)
+    named("R04.6", "radix-letters", [b"#H10", b"#h10", b"#Q10", b"#q10", b"#B10", b"#b10", b"#X10", b"#Z10"], "#H/#h -> 16, #Q/#q -> 8, #B/#b -> 2, any other letter is an error", kind="non-decimal")
+    named("R04.6", "non-decimal:value", [b"#HFF", b"#hff", b"#Q17", b"#B101", b"#HFFFFFFFFFFFFFFFF", b"#H10000000000000000", b"#Q1777777777777777777777", b"#Q2000000000000000000000", b"#Q3000000000000000000000", b"#Q7777777777777777777777",
+                                         b"#B" + b"1" * 64, b"#B" + b"1" * 65, b"#H+2A", b"#Q+17", b"#B-1", b"#H", b"#HG"], "digits only; the exact value up to 2^64-1, beyond that an error", kind="non-decimal")
